@@ -167,6 +167,7 @@ func CheckC01(l *Lab, verifDir string) int {
 				}
 				if w == 0 {
 					c01Reattach(rep, f, l.Pick(4, 30))
+					c01SharedIDAndHostClose(rep, f, l.Pick(4, 30))
 				}
 				c01PostGateway(rep, f)
 			}(w)
@@ -326,6 +327,104 @@ func c01Reattach(rep *Report, f *Fixture, n int) {
 		}
 		if accepts > 1 {
 			rep.Violate("C01/second-connection-for-one-tunnel/legacy-second-in", fmt.Sprintf("the host saw %d connections for one tunnel (a second RDG_IN_DATA request under the same connection id repeated the sequence)", accepts), detail)
+		}
+	}
+}
+
+// c01SharedIDAndHostClose: (1) a fresh websocket connection that names the connection id of a
+// live legacy tunnel and sends DATA / KEEPALIVE as its first packets: nothing of it may reach a host
+// and nothing may be answered with success; (2) the host closes its side of an open channel and the
+// client keeps sending DATA: the tunnel never gets a second connection.
+func c01SharedIDAndHostClose(rep *Report, f *Fixture, n int) {
+	steps := []Sym{f.SymHS(true), f.SymTC("good", f.H1.Addr()), f.SymTA(), f.SymCC(f.H1.Addr())}
+	open := func(tr, id string) *TClient {
+		env := f.Env(tr)
+		t, _, err := env.OpenTunnel(id)
+		if err != nil || t == nil {
+			return nil
+		}
+		for k, s := range steps {
+			t.Send(s.Wire)
+			if got, _ := t.WaitPackets(k+1, env.wd()); got < k+1 {
+				t.Close()
+				return nil
+			}
+		}
+		return t
+	}
+	for i := 0; i < n; i++ {
+		// (1)
+		hasLegacy := false
+		for _, tr := range Transports() {
+			hasLegacy = hasLegacy || tr == "legacy"
+		}
+		if hasLegacy {
+			f.ResetBackends()
+			id := NewConnID("sh")
+			t := open("legacy", id)
+			if t == nil {
+				rep.Inconclusive("shared-id probe: first tunnel not established")
+			} else {
+				env := f.Env("ws")
+				x, _, _ := env.OpenTunnel(id)
+				marker := []byte(fmt.Sprintf("INJECTED-WITHOUT-HANDSHAKE-%d", i))
+				var later []string
+				if x != nil {
+					x.Send(Data(marker))
+					x.Send(Keepalive())
+					x.Send(CloseChannel(0))
+					x.WaitEnd(1500*time.Millisecond, false)
+					for _, p := range x.Snapshot().Packets {
+						st, _ := LenientStatus(p.Raw)
+						later = append(later, fmt.Sprintf("%s(%#x)", PktName(p.Raw.Type), st))
+						if st == 0 && p.Raw.Type != PktData {
+							rep.Violate("C01/success-response-out-of-order/shared-connection-id", fmt.Sprintf("a websocket connection naming the id of a live legacy tunnel sent DATA, KEEPALIVE, CLOSE as its first packets and got %v", later), nil)
+							break
+						}
+					}
+					x.Close()
+				}
+				f.H1.Barrier()
+				leaked := false
+				for _, bc := range f.H1.Conns() {
+					if strings.Contains(string(bc.Received()), string(marker)) {
+						leaked = true
+					}
+				}
+				rep.Eval(HashStr("shared-id", x != nil, len(later), leaked))
+				rep.Count("shared_id_probes", 1)
+				if leaked {
+					rep.Violate("C01/payload-relayed-before-authorization/shared-connection-id", "a websocket connection naming the id of a live legacy tunnel sent a DATA packet as its first packet: the payload reached the host", nil)
+				}
+				t.Close()
+			}
+		}
+		// (2)
+		tr := Transports()[i%len(Transports())]
+		f.ResetBackends()
+		t := open(tr, NewConnID("hc"))
+		if t == nil {
+			rep.Inconclusive("host-close probe: tunnel not established")
+			continue
+		}
+		bc := f.H1.WaitConn(0, 5*time.Second)
+		if bc == nil {
+			t.Close()
+			continue
+		}
+		bc.C.Close()
+		for k := 0; k < 4; k++ {
+			time.Sleep(40 * time.Millisecond)
+			t.Send(Data([]byte(fmt.Sprintf("after-host-closed-%d", k))))
+		}
+		time.Sleep(150 * time.Millisecond)
+		f.H1.Barrier()
+		accepts := len(f.H1.Conns())
+		t.Close()
+		rep.Eval(HashStr("host-close", tr, accepts))
+		rep.Count("host_close_probes", 1)
+		if accepts > 1 {
+			rep.Violate("C01/second-connection-for-one-tunnel/after-host-closed", fmt.Sprintf("the host closed its side of the channel and the client kept sending DATA: the host saw %d connections for one channel-create", accepts), nil)
 		}
 	}
 }
